@@ -145,6 +145,29 @@ def run(ctx: Context) -> None:
                           f"`{norm(node)}` does not multiply the sub-branch frequency by an exact Fraction (kind {kind}): the chain rule "
                           f"frequency(parent) * frequency(child) is lost or becomes inexact", norm(node))
     ctx.require_floor("branch frequency chain-rule updates", n_upd, 1)
+    # the denominator of every k/N frequency is the shot budget the step received: parent frequency (cs/N) times
+    # child frequency (k/cs) is then k/N, and the children of one parent sum to the parent's share
+    n_den = 0
+    seen_den = set()
+    for fn, call, world_none in ex.fractions:
+        if world_none or len(call.args) != 2:
+            continue
+        den = call.args[1]
+        if isinstance(den, ast.Constant) and den.value == 1:
+            continue  # Fraction(0, 1) / Fraction(1, 1) neutral elements
+        key = f"{fn.qualname}|{norm(call)}"
+        if key in seen_den:
+            continue
+        seen_den.add(key)
+        n_den += 1
+        ok = isinstance(den, ast.Name) and den.id == "shots" and "shots" in fn.all_params()
+        ctx.obligation("C03a", key + "|denominator-is-shots", ok, f"{ctx.relpath(fn.file)}:{call.lineno}")
+        if not ok:
+            ctx.violation("C03a", key + "|denominator", fn.file, call.lineno,
+                          f"`{norm(call)}` does not divide by the shot budget `shots` the step received: the branch frequencies of one "
+                          f"measurement no longer sum to 1 (or to the parent branch's share after the chain-rule multiplication)",
+                          norm(call))
+    ctx.require_floor("Fraction(count, shots) constructions", n_den, 7)
     # outcomes are concatenated previous-first (shared with C02c)
     ap = sim.methods["_apply_instruction_to_branches"]
     # ---- (b) ----------------------------------------------------------------------------------------------
